@@ -40,8 +40,11 @@ class TorchDriver:
         return self.torch.from_numpy(np.array([dec_val(x) for x in vals], dtype=np.float64).reshape(shape))
 
     def make(self, t):
-        return self.MT(self.plain(t["shape"], t["vals"]),
-                       self.torch.from_numpy(np.array(t["mask"], dtype=bool).reshape(t["shape"])))
+        # program inputs arrive in various memory layouts (contiguous, transposed storage, strided view): no operation may care
+        import common
+        lay = len(t["vals"]) + sum(t["shape"]) + sum(int(bool(b)) for b in t["mask"])
+        return self.MT(common.vary_torch(self.plain(t["shape"], t["vals"]), lay),
+                       common.vary_torch(self.torch.from_numpy(np.array(t["mask"], dtype=bool).reshape(t["shape"])), lay + 1))
 
     def snap(self, x):
         return snap_np(x.tensor.detach().numpy(), x.mask.detach().numpy())
